@@ -181,7 +181,11 @@ def _binary(name, fn, dts, tol="exact", out_bool=False, nonzero_b=False, c15=Tru
     def make(g):
         a = g.pick(dt=dts)
         kw = {"nonzero": True} if nonzero_b else {}
-        if g.rng.chance(1, 3):
+        if g.rng.chance(1, 6):
+            # single-element operands of assorted ranks, in both positions
+            a = g.pick(dt=a.dt, shape=g.rng.choose([(), (1,), (1, 1), (2,)]), fresh=True, **kw)
+            b = g.pick(dt=a.dt, shape=g.rng.choose([(), (1,), (1, 1), (1, 1, 1)]), fresh=True, **kw)
+        elif g.rng.chance(1, 3):
             b = g.pick(dt=a.dt, shape=a.shape, **kw)
         else:
             b = g.pick(dt=a.dt, shape=bshape(g, a.shape), **kw)
